@@ -122,6 +122,15 @@ Lemma readings_nodes w w0 n : (forall j, w_nodes w j = w_nodes w0 j) ->
   item_name_n T w n = item_name_n T w0 n /\ identifiable_n T w n = identifiable_n T w0 n /\ seg_n T w n = seg_n T w0 n.
 Proof. intros H. apply readings_ext; [reflexivity|apply short_child_nodes; exact H]. Qed.
 
+Lemma reg_entries_nodes f : forall w w0 cur i, (forall j, w_nodes w j = w_nodes w0 j) -> reg_entries T f w cur i = reg_entries T f w0 cur i.
+Proof.
+  induction f as [|f IH]; intros w w0 cur i Hn; [reflexivity|]. rewrite !reg_entries_S, Hn.
+  destruct (w_nodes w0 i) as [n|]; [|reflexivity]. cbn zeta. destruct (readings_nodes w w0 n Hn) as (_ & -> & ->).
+  assert (Hk : forall l, reg_kids f w (cur ++ seg_n T w0 n) l = reg_kids f w0 (cur ++ seg_n T w0 n) l).
+  { induction l as [|[c|d] rest IHl]; [reflexivity| |exact IHl]. rewrite !reg_kids_cons_elem, IHl, (IH w w0 _ c Hn). reflexivity. }
+  rewrite Hk. reflexivity.
+Qed.
+
 (* ---------- the walk performs these insertions *)
 Definition ins_all (L : list (list N * id)) (I : list (list N * id)) : list (list N * id) :=
   fold_left (fun l e => assoc_insert (fst e) (snd e) l) L I.
